@@ -12,8 +12,17 @@ import (
 )
 
 func (e *Exec) freshSym(name, sort_, kind string) *Term {
+	// the SMT name carries the sort: solver processes are shared by all paths and harnesses of a run
+	switch sort_ {
+	case "String":
+		name = "s$" + sanitize(name)
+	case "Bool":
+		name = "b$" + sanitize(name)
+	default:
+		name = sanitize(name)
+	}
 	e.symCount[name]++
-	n := sanitize(name)
+	n := name
 	if e.symCount[name] > 1 {
 		n = fmt.Sprintf("%s!%d", n, e.symCount[name])
 	}
@@ -249,11 +258,22 @@ func (e *Exec) readModel() map[string]string {
 }
 
 func (e *Exec) modelNow() map[string]string {
-	if len(e.syms) == 0 {
+	if len(e.syms) == 0 && e.unknownBranches == 0 {
 		return map[string]string{}
 	}
-	if e.solver.Check() != "sat" {
-		return map[string]string{"_": "path condition not sat when model requested"}
+	r := e.solver.Check()
+	if strings.HasPrefix(r, "unknown") {
+		r = e.solver.Check()
+	}
+	switch {
+	case r == "unsat":
+		// this path was only entered because a feasibility query came back unknown: it does not exist
+		panic(pathEnd{"infeasible (path condition unsatisfiable)"})
+	case r != "sat":
+		panic(inconclusive{"solver " + r + " when validating the path condition of a counterexample"})
+	}
+	if len(e.syms) == 0 {
+		return map[string]string{}
 	}
 	return e.readModel()
 }
